@@ -25,11 +25,12 @@ _SORT = {INT: z3.IntSort, BOOL: z3.BoolSort, REAL: z3.RealSort, STR: z3.StringSo
 
 class Sym:
     """Immutable symbolic scalar: z3 term + python type tag."""
-    __slots__ = ('z', 't')
+    __slots__ = ('z', 't', 'ratio')
 
-    def __init__(self, z, t):
+    def __init__(self, z, t, ratio=None):
         self.z = z
         self.t = t
+        self.ratio = ratio      # (int numerator, int denominator) when this real is a quotient of two ints
 
     def __repr__(self):
         return 'Sym<%s:%s>' % (self.t, self.z)
@@ -154,6 +155,14 @@ class SymSeq:
             return vals[0]
         return tuple(vals)
 
+    def concat(self, other):
+        if self.types != other.types or self.arity != other.arity:
+            raise Unsupported('concatenation of sequences with different element shapes')
+        k = z3.Int('k!cat%d' % next(_fresh_counter))
+        cols = [z3.Lambda([k], z3.If(k < self.n, z3.Select(a, k), z3.Select(b, k - self.n)))
+                for a, b in zip(self.cols, other.cols)]
+        return SymSeq(self.n + other.n, cols, self.types, self.arity)
+
     def append(self, v):
         vals = [v] if self.arity is None else list(v)
         if len(vals) != len(self.cols):
@@ -277,6 +286,22 @@ def ztrunc(r):
     return z3.If(r >= 0, z3.ToInt(r), -z3.ToInt(-r))
 
 
+def ratio_floor(v):
+    a, b = v.ratio
+    return zfloordiv(a, b)
+
+
+def ratio_ceil(v):
+    a, b = v.ratio
+    return -zfloordiv(-a, b)
+
+
+def ratio_trunc(v):
+    a, b = v.ratio
+    nonneg = z3.Or(z3.And(a >= 0, b > 0), z3.And(a <= 0, b < 0))
+    return z3.If(nonneg, zfloordiv(a, b), -zfloordiv(-a, b))
+
+
 def zfloordiv(a, b):
     # python floor division on ints; z3 div is floor for positive divisors
     return z3.If(b > 0, a / b, (-a) / (-b))
@@ -307,7 +332,7 @@ def concretize(v):
             return z.as_string()
         if v.t == REAL and z3.is_rational_value(z):
             return Fraction(z.numerator_as_long(), z.denominator_as_long())
-        return Sym(z, v.t)
+        return Sym(z, v.t, v.ratio)
     return v
 
 
@@ -368,6 +393,7 @@ class Engine:
         self.extra_exc = {}
         self.spec_env = {}
         self.depth = 0
+        self.witness = {}         # named arbitrary objects/values created by stubs (reported in counter-models)
 
     # ---- path management
     def reset_path(self, schedule):
@@ -534,7 +560,10 @@ class Engine:
             if isinstance(op, ast.Div):
                 if not self.pure and self.branch(zb == 0):
                     raise PyRaise('ZeroDivisionError', node=node)
-                return Sym(za / zb, REAL)
+                ratio = None
+                if ta in (INT, BOOL) and tb in (INT, BOOL):
+                    ratio = (zterm(a, INT), zterm(b, INT))
+                return Sym(za / zb, REAL, ratio)
             if isinstance(op, ast.FloorDiv):
                 if not self.pure and self.branch(zb == 0):
                     raise PyRaise('ZeroDivisionError', node=node)
@@ -790,6 +819,21 @@ class Engine:
             from . import builtins as B
             Engine._builtins = B.make_builtins()
         return Engine._builtins
+
+    def rebind(self, fr, name, value):
+        f = fr
+        while f is not None:
+            if name in f.env:
+                f.env[name] = value
+                return
+            f = f.closure
+        fr.env[name] = value
+
+    def lookup_or_missing(self, name, fr):
+        try:
+            return self.lookup(name, fr)
+        except Unsupported:
+            return _MISSING
 
     # ---- expression evaluation
     def eval(self, node, fr):
@@ -1475,7 +1519,15 @@ class Engine:
         if fr.yields is None:
             raise Unsupported('yield in non-generator frame')
         if isinstance(v, ast.YieldFrom):
-            items = self.iterate_concrete(self.eval(v.value, fr))
+            src = self.eval(v.value, fr)
+            if isinstance(src, GenResult):
+                src = src.items
+            if isinstance(src, SymSeq) and isinstance(fr.yields, SymSeq) and not z3.is_int_value(z3.simplify(src.n)):
+                if fr.is_top and self.on_yield is not None:
+                    raise Unsupported('yield from a symbolic sequence with per-yield checks')
+                fr.yields = fr.yields.concat(src)
+                return None
+            items = self.iterate_concrete(src)
             for x in items:
                 self.emit_yield(x, fr)
             return None
@@ -1866,13 +1918,46 @@ class Engine:
             return it.vc_indexable(self)
         raise Unsupported('inductive loop over %s' % pytype(it))
 
+    MUTATORS = {'append', 'extend', 'insert', 'pop', 'remove', 'clear', 'update', 'add', 'discard', 'setdefault',
+                'sort', 'reverse', 'popitem', 'write'}
+
     def assigned_names(self, stmts):
+        """names (re)bound in the statements, plus names whose object is mutated in place
+        (subscript/attribute stores, mutating method calls) - the latter are havocked only when the
+        object supports it (vc_havoc), otherwise the loop is rejected as unsupported."""
         names = set()
+        mutated = set()
+
+        def base_name(n):
+            while isinstance(n, (ast.Subscript, ast.Attribute)):
+                n = n.value
+            return n.id if isinstance(n, ast.Name) else None
 
         class V(ast.NodeVisitor):
             def visit_Name(s, n):
                 if isinstance(n.ctx, (ast.Store, ast.Del)):
                     names.add(n.id)
+
+            def visit_Subscript(s, n):
+                if isinstance(n.ctx, (ast.Store, ast.Del)):
+                    b = base_name(n)
+                    if b:
+                        mutated.add(b)
+                s.generic_visit(n)
+
+            def visit_Attribute(s, n):
+                if isinstance(n.ctx, (ast.Store, ast.Del)):
+                    b = base_name(n)
+                    if b:
+                        mutated.add(b)
+                s.generic_visit(n)
+
+            def visit_Call(s, n):
+                if isinstance(n.func, ast.Attribute) and n.func.attr in Engine.MUTATORS:
+                    b = base_name(n.func.value)
+                    if b:
+                        mutated.add(b)
+                s.generic_visit(n)
 
             def visit_FunctionDef(s, n):
                 names.add(n.name)
@@ -1881,6 +1966,7 @@ class Engine:
                 pass
         for st in stmts:
             V().visit(st)
+        self._last_mutated = mutated - names
         return names
 
     def loop_entry(self, spec, ordinal, fr, node, seq):
@@ -1895,12 +1981,34 @@ class Engine:
         for iname, itext in spec.inv:
             g = self.spec_eval(itext, fr)
             self.check('inv.init/loop%d/%s' % (ordinal, iname), g, kind='inv.init')
+        mutated = set(self._last_mutated)
         for name in sorted(mods):
             cur = fr.env.get(name, _MISSING)
             t = spec.types.get(name)
             if cur is _MISSING and t is None:
                 continue   # first assigned inside the loop and not live after: leave unbound
             fr.env[name] = self.havoc_like(cur, t, name)
+        for name in sorted(mutated):
+            cur = self.lookup_or_missing(name, fr)
+            if cur is _MISSING:
+                continue
+            if hasattr(cur, 'vc_havoc'):
+                fr.env['entry%d!%s' % (ordinal, name)] = cur.vc_snapshot() if hasattr(cur, 'vc_snapshot') else cur
+                new = cur.vc_havoc(self, name)
+                if hasattr(cur, 'store') and hasattr(new, 'store'):
+                    cur.store = new.store       # in-place: aliases of the object see the havocked state
+                else:
+                    fr.env[name] = new
+            elif isinstance(cur, (list, dict, set)) or (isinstance(cur, Obj) and name != 'self' and not getattr(cur, 'vc_immutable', False)):
+                t = spec.types.get(name)
+                if t == 'frame':
+                    continue
+                if isinstance(t, tuple) and t and t[0] == 'symdict' and isinstance(cur, dict):
+                    from .symdict import SymDict
+                    fr.env['entry%d!%s' % (ordinal, name)] = dict(cur)
+                    self.rebind(fr, name, SymDict(t[1], t[2], name=name))
+                    continue     # contract asserts: mutation does not escape the iteration (per-iteration temp)
+                raise Unsupported('inductive loop mutates %r (a concrete %s) - needs a symbolic container' % (name, pytype(cur)))
         if fr.yields is not None and self.contains_yield(node.body):
             if not isinstance(fr.yields, SymSeq):
                 raise Unsupported('generator with inductive loop must use a SymSeq output (declare yields=...)')
@@ -1919,6 +2027,10 @@ class Engine:
             self.check('hint/loop%d/%s' % (ordinal, hname), self.spec_eval(htext, fr), kind='hint')
         if fr.yields is not None:
             fr.env['Y0'] = fr.yields
+        for name in sorted(mods | mutated):
+            cur = self.lookup_or_missing(name, fr)
+            if cur is not _MISSING:
+                fr.env['head%d!%s' % (ordinal, name)] = cur.vc_snapshot() if hasattr(cur, 'vc_snapshot') else cur
 
     def loop_step(self, spec, ordinal, fr, node):
         if isinstance(node, ast.While):
@@ -1948,6 +2060,10 @@ class Engine:
             if callable(t):
                 return t(self, name)
             return fresh(t, name)
+        if hasattr(cur, 'vc_havoc'):
+            return cur.vc_havoc(self, name)
+        if cur is None:
+            raise Unsupported('cannot havoc loop variable %s whose value is None at loop entry (declare LoopSpec.types)' % name)
         if isinstance(cur, Sym):
             return fresh(cur.t, name)
         if isinstance(cur, bool):
@@ -2047,12 +2163,19 @@ class SeqIndexable:
 def _sf_forall(eng, node, fr, exists=False):
     # forall(i, body) / forall((i, j), body): names are bound to fresh integer constants
     names = node.args[0]
-    if isinstance(names, ast.Name):
+    types = None
+    if isinstance(names, ast.Constant) and isinstance(names.value, str):
+        # "c:str a b s:str" - typed bound variables
+        parts = [p.split(':') for p in names.value.split()]
+        names = [p[0] for p in parts]
+        types = [p[1] if len(p) > 1 else INT for p in parts]
+    elif isinstance(names, ast.Name):
         names = [names.id]
     else:
         names = [e.id for e in names.elts]
-    consts = [z3.Int('%s!q%d' % (n, next(_fresh_counter))) for n in names]
-    sub = Frame(fr.func, fr.mod, {n: Sym(c, INT) for n, c in zip(names, consts)}, closure=fr)
+    types = types or [INT] * len(names)
+    consts = [z3.Const('%s!q%d' % (n, next(_fresh_counter)), _SORT[t]()) for n, t in zip(names, types)]
+    sub = Frame(fr.func, fr.mod, {n: Sym(c, t) for n, c, t in zip(names, consts, types)}, closure=fr)
     eng.pure += 1
     try:
         body = eng.ztruth(eng.eval(node.args[1], sub))
@@ -2115,6 +2238,26 @@ def _sf_entry(eng, node, fr):
     return eng.lookup('entry%d!%s' % (node.args[1].value, node.args[0].id), fr)
 
 
+def _sf_head(eng, node, fr):
+    """head(x, n): value of x at the head of the current iteration of loop n (after havoc)."""
+    return eng.lookup('head%d!%s' % (node.args[1].value, node.args[0].id), fr)
+
+
+def _sf_dget(eng, node, fr):
+    """dget(d, k1, ..., kn, default): d[k1]...[kn] if every level exists else default."""
+    d = eng.eval(node.args[0], fr)
+    keys = [eng.eval(a, fr) for a in node.args[1:-1]]
+    default = eng.eval(node.args[-1], fr)
+    if hasattr(d, 'lookup_default'):
+        return d.lookup_default(keys, default)
+    cur = d
+    for k in keys:
+        if not isinstance(cur, dict) or k not in cur:
+            return default
+        cur = cur[k]
+    return cur
+
+
 def _sf_seqlen(eng, node, fr):
     v = eng.eval(node.args[0], fr)
     if isinstance(v, GenResult):
@@ -2138,4 +2281,4 @@ def _sf_cdiv(eng, node, fr):
 
 
 SPEC_FORMS = {'forall': _sf_forall, 'exists': _sf_exists, 'implies': _sf_implies, 'iff': _sf_iff,
-              'ite': _sf_ite, 'old': _sf_old, 'entry': _sf_entry, 'seqlen': _sf_seqlen, 'fdiv': _sf_fdiv, 'cdiv': _sf_cdiv}
+              'ite': _sf_ite, 'old': _sf_old, 'entry': _sf_entry, 'head': _sf_head, 'dget': _sf_dget, 'seqlen': _sf_seqlen, 'fdiv': _sf_fdiv, 'cdiv': _sf_cdiv}
